@@ -38,6 +38,17 @@ CHECKS = {
         "and a D.C./D.S. at the end of the piece (al Fine); coda forms are checked for validity, totality and copy correctness only.",
         "DESIGN.md section 4 C09",
     ),
+    "C11": (
+        "exhaustive enumeration of small parts (signature tables x pre-existing measure subsets x note rectangles x operation orders) and of the duration estimator over all (duration, divisions) pairs",
+        "Every part over the alphabets (divisions, one to three signatures at every quarter, every subset/pair of pre-existing measures, every "
+        "onset/end of one to three notes, tuplet runs, pre-tied and slurred chains, divisions changes) is normalised by add_measures / tie_notes / "
+        "find_tuplets / fill_rests / sanitize_part in several orders on the real implementation: measure tiling and numbering against a reference, "
+        "note array identical before and after every operation, notes within measures, tie chains well-formed, every assigned symbolic duration "
+        "evaluates to the numeric one; estimate_symbolic_duration and find_tie_split are enumerated for divisions 1..960 (thorough: all; quick: 1..48 + selected + a seed block).",
+        "Trusted: reference model mc/c11_model.py; durations compared within the estimator's documented eps; which notes get split, ids of new "
+        "notes, Tuplet objects and slurs are not compared.",
+        "DESIGN.md section 4 C11",
+    ),
     "C12": (
         "complete enumeration of the finite domains named in the property against independent twelve-tone / line-of-fifths / Fraction arithmetic",
         "The domains of the property are finite and are enumerated completely: all steps x alterations x octaves, all MIDI pitches, every "
@@ -78,6 +89,16 @@ CHECKS = {
         "Trusted: mido; reference model mc/c04_model.py; parts start at 0 and share measures; pitch spelling not compared; tempo within 1 us per "
         "quarter; hangs detected by a CPU-time limit; one open known finding (0/x signature under time_sig_change).",
         "DESIGN.md section 4 C04",
+    ),
+    "C05": (
+        "exhaustive enumeration of parts (frames x single events / event pairs / triples), scores of 2-3 parts, all option subsets, and small note arrays for the inverse, against an exact reference table",
+        "424 frames (meter/measure plans x division plans incl. mid-measure changes x key plans) x every single note, tie chain or grace event, "
+        "all ordered event pairs and shared-onset triples, all 2^7 include_* subsets, rest arrays, scores/lists/groups of one to three parts with "
+        "divisions whose lcm exceeds both and note-less parts, and 1-3 row note arrays with beat, division or both columns are run through the "
+        "real note_array / rest_array / note_array_to_score; every row, column and the row order are compared with a reference table computed in Fractions.",
+        "Trusted: reference table mc/c05_ref.py (never calls the code under test); metrical columns only for parts with measures and an object at "
+        "time 0; voice/staff compared only where the score states them.",
+        "DESIGN.md section 4 C05",
     ),
     "C06": (
         "exhaustive enumeration of small performances x export options and of abstract MIDI files with tempo events, against an exact tick/tempo reference reader",
@@ -146,6 +167,17 @@ CHECKS = {
         "transpose_note / step2pc / Roman-numeral root and bass arithmetic are enumerated completely.",
         "Trusted: reference arithmetic in mc/c16_model.py; only results needing at most two accidentals are compared; compound intervals out of scope.",
         "DESIGN.md section 4 C16",
+    ),
+    "C17": (
+        "exhaustive enumeration of small note arrays in every row order (multisets of 1-5 rows), pitch pairs/contexts, periodic families of every length, and MIDI files built from them",
+        "All multisets of up to four (five in blocks) rows over small onset/pitch/duration alphabets in every row permutation, all pitch pairs "
+        "21..108, 12^4 pitch-class sequences, periodic motifs of every length 1..120 (crossing the ps13 windows), both voice modes, three profile "
+        "sets, and MIDI files written from the arrays are fed to the real estimate_spelling / estimate_voices / estimate_key / load_score_midi; "
+        "sounding pitch, accidental bound, order independence, voice well-formedness, key validity/invariances (and the winning profile against an "
+        "exact Krumhansl-Schmuckler reference) and importer pitches are checked.",
+        "Trusted: reference in mc/c17_ref.py using the profile tables of globals.py; key invariances asserted only where the winning correlation "
+        "is finite and unique by 1e-9; hundreds of arbitrary rows are out of reach.",
+        "DESIGN.md section 4 C17",
     ),
     "C18": (
         "exhaustive enumeration of small score/performance/alignment triples x 5 normalisations x 2 tempo methods, encode->decode round trip and time maps against exact references",
